@@ -24,7 +24,12 @@ def dispatch (prop : String) (inp out : List String) : Verdict :=
   | "C04" => SessDrv.check "C04" inp out
   | "C05" => if inp.head? == some "bus" then BusDrv.check inp out else SessDrv.check "C05" inp out
   | "C14" => SessDrv.check "C14" inp out
-  | "C06" => if inp.head? == some "auth" then AuthDrv.check "C06" inp out else DrvDrv.check "C06" inp out
+  | "C06" => if inp.head? == some "auth" then AuthDrv.check "C06" inp out
+             else if inp.head? == some "live" then
+               -- concurrent flood, then probes: the three tasks of the network service are all still working
+               { agree := out == ["recv=1", "tick=1", "cmd=1"], model := "recv=1 tick=1 cmd=1",
+                 specFail := if out == ["recv=1", "tick=1", "cmd=1"] then [] else ["receive_tick_and_command_tasks_survive_concurrent_traffic"] }
+             else DrvDrv.check "C06" inp out
   | "C09" => DirDrv.check inp out
   | "C18" => InpDrv.check inp out
   | "C15" => if inp.head? == some "auth" then AuthDrv.check "C15" inp out
